@@ -1,5 +1,5 @@
 SPECIFICATION Spec
-CONSTANTS MethodStates = {"no", "meth"}
+CONSTANTS Tri = {"run", "fill_into", "compute"}
 INVARIANT AsDocumented
 INVARIANT NamedNeverCasts
 INVARIANT FillComputeBinds
@@ -8,5 +8,7 @@ INVARIANT AttrIsAbsent
 INVARIANT CbfOnlyFillInto
 INVARIANT Monotone
 INVARIANT LogWithinCaps
+INVARIANT RepeatedUse
+PROPERTY BindingStable
 INVARIANT Emitted
 CHECK_DEADLOCK FALSE
